@@ -37,6 +37,8 @@ def main():
     tier = args.tier if args.tier in ('quick', 'thorough') else 'quick'
     seed = int(os.environ.get('VERIF_SEED', '0') or 0)
     res = Result(prop, tier, seed)
+    for old in (common.ROOT / 'replays').glob('%s-%d-*.json' % (prop, seed)):
+        old.unlink()
 
     # 1. proof obligations
     lean_failure = None
